@@ -369,6 +369,9 @@ def copier_oracle(p, F, io, steps, res, stuck):
     had_err = any(r[0] in ('err', 'werr') for _, r in steps)
     if stuck:
         return 'operation never finished although every outstanding request was answered'
+    if p.get('src_close_fail') or p.get('dst_close_fail'):
+        which = ' and '.join(w for w, k in (('source', 'src_close_fail'), ('destination', 'dst_close_fail')) if p.get(k))
+        return None if res[0] == 'failed' else f'closing the {which} failed but the copy returned normally'
     if had_err:
         return None if res[0] == 'failed' else 'a block failed but the copy returned normally'
     total = p['total']
@@ -407,9 +410,18 @@ def stage_copier(ctx, n):
             if total > E:
                 seen.add('short_source')
         p = {'bs': bs, 'mx': mx, 'total': total, 'sparse': sparse}
+        # fault at close: every 8 cases one failing destination close, one failing source close, one of both
+        if k % 8 in (1, 5):
+            p['dst_close_fail'] = 'sftp' if k % 16 < 8 else 'os'
+        if k % 8 in (3, 5):
+            p['src_close_fail'] = 'os' if k % 16 < 8 else 'sftp'
         pol = new_policy(rng, F, 's')
         io, steps, res, stuck = run_copier_case(p, ranges, pol)
         seen |= pol.flags
+        body_failed = any(r[0] in ('err', 'werr') for _, r in steps)
+        for w in ('src', 'dst'):
+            if p.get(w + '_close_fail'):
+                seen.add('%s_close_fail_after_%s' % (w, 'error' if body_failed else 'clean_copy'))
         honest = 'malformed' not in pol.flags
         ctx.count('copier.' + pol.mode + ('.sparse' if sparse else ''))
         ctx.count('copier.result.' + res[0])
@@ -427,28 +439,32 @@ def stage_copier(ctx, n):
                        + (f', data extents {layout["extents"]} in a {layout["size"]}-byte file' if sparse else
                           f', source of {len(F)} bytes') + f'): {bad}', rp)
         if not stuck:
-            cases.append('(%d, %d, %d, %s, %s, %s, %s, %s, %s)' % (
+            out = 'None' if res[0] == 'done' else '(Some %s)' % {'src_close': 'ESrcClose', 'dst_close': 'EDstClose'}.get(
+                res[2] if len(res) > 2 else 'body', 'EBody')
+            cases.append('(%d, %d, %d, %s, %s, %s, %s, %s, %s, %s, %s, %s)' % (
                 bs, mx, total, cbool(sparse), coq_pairs(ranges), coq_steps('s', steps), coq_pairs(io.sent()),
-                'COk' if res[0] == 'done' else 'CFail', zl(bytes(io.dst))))
+                cbool(not p.get('src_close_fail')), cbool(not p.get('dst_close_fail')), out, cbool('dst' in io.closed),
+                zl(bytes(io.dst))))
             case_honest.append(honest)
             case_sparse.append(sparse)
         if k == 0:
             ctx.sample({'copier': {'p': p, 'source_len': len(F), 'ranges': ranges,
                                    'steps': [step_to_json(s) for s in steps][:6], 'result': res[0]}})
-    ty = 'Z * Z * Z * bool * list (Z * Z) * list (nat * creply) * list (Z * Z) * cstatus * bytes'
+    ty = 'Z * Z * Z * bool * list (Z * Z) * list (nat * creply) * list (Z * Z) * bool * bool * option cerr * bool * bytes'
     # /repo carries the repair of the sparse copy (model parameter c_fix = true); a tree without it is still
     # recognised (snapshot model) so that the trailing-hole defect is reported by the oracle, not as a broken model
-    bad = ctx.coq_cases('copier', IMPORTS, 'chk_copier_fixed', cases, ty=ty)
+    bad = ctx.coq_cases('copier', IMPORTS, 'chk_copier_run true', cases, ty=ty)
     variant = 'repaired sparse copy (C12_sparse_repaired, C12_sparse_repaired_total apply)'
     if bad:
-        bad2 = ctx.coq_cases('copier_snapshot_model', IMPORTS, 'chk_copier', cases, ty=ty)
+        bad2 = ctx.coq_cases('copier_snapshot_model', IMPORTS, 'chk_copier_run false', cases, ty=ty)
         if bad2 == [] and all(case_sparse[i] for i in bad):
             variant = 'sparse copy without the repair (C12_sparse_partial / C12_sparse_trailing_hole_refuted apply)'
             ctx.cov['correspondence']['copier']['note'] = 'mismatches are against the repaired model; all cases agree with the snapshot model'
         else:
             ctx.broke('correspondence:copier', f'{len(bad)} of {len(cases)} cases differ; first: {cases[bad[0]][:1500]}')
     ctx.cov['oracle']['copier_variant'] = variant
-    for need in ('short', 'eof', 'err', 'short_source', 'malformed'):
+    for need in ('short', 'eof', 'err', 'short_source', 'malformed', 'dst_close_fail_after_clean_copy',
+                 'dst_close_fail_after_error', 'src_close_fail_after_clean_copy', 'src_close_fail_after_error'):
         if need not in seen:
             ctx.broke('vacuity:copier-' + need, 'no copier case exercised ' + need)
 
@@ -877,6 +893,20 @@ def make_server_class(state):
                 state['failed'] = True
                 raise asyncssh.SFTPFailure('injected write failure')
             return super().write(file_obj, offset, data)
+
+        def close(self, file_obj):
+            # fault at close: the close of the file written to (FXP_CLOSE of an upload / copy destination) or of
+            # the file read from is answered with an error although every read and write succeeded
+            which = state.get('close_fail')
+            try:
+                writable = bool(file_obj.writable())
+            except Exception:
+                writable = False
+            res = super().close(file_obj)
+            if which and writable == (which == 'dst'):
+                state['close_failed'] = state.get('close_failed', 0) + 1
+                raise asyncssh.SFTPFailure('injected close failure')
+            return res
     return ShortSFTP
 
 
@@ -967,7 +997,8 @@ async def e2e(ctx, tmp, replay=None):
         serial = 0
 
         def reset(**kw):
-            state.update({'cut': None, 'fail_at': None, 'wfail_at': None, 'short': False, 'async': False, 'failed': False})
+            state.update({'cut': None, 'fail_at': None, 'wfail_at': None, 'short': False, 'async': False, 'failed': False,
+                          'close_fail': None, 'close_failed': 0})
             state.update(kw)
 
         async def one_transfer(spec):
@@ -999,6 +1030,18 @@ async def e2e(ctx, tmp, replay=None):
             elif fault == 'early_eof' and op == 'get' and size > 1 and not spec['sparse']:
                 state['cut'] = spec['at'] % (size - 1)
                 expect_fail = True
+            close_fault = spec.get('close_fault')
+            if close_fault == 'devfull':
+                # local destination whose buffered tail cannot be flushed: the error shows up in close() only
+                if op != 'get' or not os.path.exists('/dev/full'):
+                    close_fault = None
+                else:
+                    dp = '/dev/full'
+            elif close_fault in ('src', 'dst'):
+                if (op == 'get' and close_fault == 'dst') or (op == 'put' and close_fault == 'src'):
+                    close_fault = None          # that end is a local file
+                else:
+                    state['close_fail'] = close_fault
             kw = dict(block_size=bs, max_requests=mx, sparse=spec['sparse'])
             err = None
             try:
@@ -1017,13 +1060,24 @@ async def e2e(ctx, tmp, replay=None):
                             h._supports_copy_data = True
             except (asyncssh.SFTPError, OSError) as e:
                 err = type(e).__name__
-            got = open(dp, 'rb').read() if os.path.exists(dp) else None
+            state['close_fail'] = None
+            got = open(dp, 'rb').read() if (os.path.isfile(dp) and dp != '/dev/full') else None
             for pth in (sp, dp):
                 try:
-                    os.remove(pth)
+                    if pth != '/dev/full':
+                        os.remove(pth)
                 except OSError:
                     pass
             ctx.count('e2e.%s.%s' % (op, 'raised' if err else 'ok'))
+            if close_fault:
+                if close_fault != 'devfull' and not state.get('close_failed'):
+                    return None     # the server was never asked to close that file
+                stats['close_faults'] = stats.get('close_faults', 0) + 1
+                what = {'src': 'closing the source was answered with an error',
+                        'dst': 'closing the destination was answered with an error',
+                        'devfull': 'the local destination could not flush its last bytes when it was closed (ENOSPC)'}[close_fault]
+                return None if err else f'{what} but {op} returned normally' + (
+                    '' if got is None else f' (destination has {len(got)} of {len(content)} bytes)')
             if state.get('shortened'):
                 stats['shortened'] = stats.get('shortened', 0) + state.pop('shortened')
             if expect_fail and state['failed'] is False and fault != 'early_eof':
@@ -1061,10 +1115,18 @@ async def e2e(ctx, tmp, replay=None):
             # defaults (block_size / max_requests chosen by the library)
             specs.append({'op': 'get', 'size': 300000, 'bs': -1, 'mx': -1, 'sparse': False, 'short': True, 'fault': None})
             specs.append({'op': 'put', 'size': 200000, 'bs': -1, 'mx': -1, 'sparse': False, 'short': False, 'fault': None})
+            # faults at close, with and without an earlier block error (deterministic list, independent of the seed)
+            for j, (op, cf, fault, nrc) in enumerate([
+                    ('put', 'dst', None, False), ('get', 'src', None, False), ('get', 'devfull', None, False),
+                    ('copy', 'dst', None, True), ('copy', 'dst', None, False), ('copy', 'src', None, True),
+                    ('put', 'dst', 'write_fail', False), ('get', 'src', 'read_fail', False), ('get', 'devfull', None, False)]):
+                specs.append({'op': op, 'size': [3000, 700, 100, 5000, 2000, 900, 4000, 2500, 1][j], 'bs': [256, 100, 64, 1000, 256, 64, 256, 100, 64][j],
+                              'mx': [3, 1, 2, 8, 2, 16, 3, 2, 1][j], 'sparse': j % 2 == 1, 'short': j % 3 != 2, 'fault': fault,
+                              'at': 1234 + j, 'no_remote_copy': nrc, 'close_fault': cf})
         for spec in specs:
             bad = await one_transfer(spec)
             ctx.note_case(('e2e', spec['op'], spec['size'], spec['bs'], spec['mx'], spec['sparse'], spec['short'],
-                           spec.get('fault')), nontrivial=spec['size'] > spec['bs'] > 0)
+                           spec.get('fault'), spec.get('close_fault')), nontrivial=spec['size'] > spec['bs'] > 0)
             if bad:
                 ctx.failing_input(f'end to end {spec["op"]} of {spec["size"]} bytes (block_size={spec["bs"]}, '
                                   f'max_requests={spec["mx"]}, sparse={spec["sparse"]}, short reads={spec["short"]}): {bad}',
@@ -1208,6 +1270,8 @@ async def e2e(ctx, tmp, replay=None):
             ctx.broke('vacuity:e2e-short-reads', 'the server never shortened a read')
         if not stats.get('faults'):
             ctx.broke('vacuity:e2e-faults', 'no injected fault was reached')
+        if stats.get('close_faults', 0) < 4:
+            ctx.broke('vacuity:e2e-close-faults', 'fewer than 4 faults at close were reached')
         if not stats.get('parallel_copy'):
             stats['parallel_copy'] = 'unavailable (private attribute missing): remote copies used copy-data only'
 
@@ -1394,11 +1458,13 @@ def run(ctx):
         'block_size and block_size*max_requests, start offsets before/at/after EOF; per case an on-line schedule picks the '
         'outstanding request to complete (fifo/lifo/random) with a full, 1-byte, half or random short count, EOF at/after '
         'the end, an injected block error (SFTPFailure/OSError, read or write side) or a malformed reply (zero-length, '
-        'over-long, premature EOF, wrong bytes); sparse layouts of up to 4 data extents with leading/middle/trailing holes; '
+        'over-long, premature EOF, wrong bytes); in the copier every 8 cases one failing close of the destination, of the '
+        'source, and of both (after a clean copy and after a block error); sparse layouts of up to 4 data extents with leading/middle/trailing holes; '
         'file-object operation sequences (read/write/seek/tell, append or not); plus every schedule (all completion orders x '
         'all short counts) of a few small read/copy configurations (coverage.exhaustive says which were enumerated '
         'completely); end to end: get/put/copy/file objects over loopback against an SFTPServer subclass that shortens '
-        'reads, fails a chosen block or ends the file early, with client-side reply jitter, and real sparse files; the '
+        'reads, fails a chosen block, ends the file early or answers the close of the source / destination with an error '
+        '(plus a local destination that cannot flush on close, /dev/full), with client-side reply jitter, and real sparse files; the '
         'recursive driver: get/put/copy -r and mget/mput/mcopy with glob patterns of a tree with nested and empty '
         'directories, empty files, files at block boundaries, symlinks to a large file, to a directory and upwards, for '
         'follow_symlinks x preserve x sparse, destination tree compared byte for byte (links as links unless followed), and '
